@@ -128,6 +128,15 @@ theorem secondPass_stop_accounts (R : Renamer σ) :
     intro r r' as h
     obtain ⟨dir, src, dst⟩ := x
     rw [secondPass] at h
+    -- (the deferred destination passed the containment check again, or the pass would have ended with an outcome)
+    cases hcont : contained (R.view r.st) dir dst with
+    | error e => rw [hcont] at h; cases e <;> simp at h
+    | ok bcont =>
+    rw [hcont] at h
+    cases bcont with
+    | false => simp at h
+    | true =>
+    simp only at h
     have hev := call_events R r dir src dst false
     cases hcall : r.call R dir src dst false with
     | mk r1 err =>
@@ -216,14 +225,18 @@ theorem secondPass_ne_done (R : Renamer σ) (s : Strategy) :
     obtain ⟨dir, src, dst⟩ := x
     rw [secondPass]
     split
-    · exact ih _ _
+    · simp
+    · simp
+    · simp
     · split
-      · rename_i r1 _ _ _
-        have := resolveConflict_ne_done R r1 dir src dst s as
-        split
-        · exact ih _ _
-        · rename_i heq; rw [heq] at this; simpa using this
-      · simp [outcomeOfErr_ne_done]
+      · exact ih _ _
+      · split
+        · rename_i r1 _ _ _
+          have := resolveConflict_ne_done R r1 dir src dst s as
+          split
+          · exact ih _ _
+          · rename_i heq; rw [heq] at this; simpa using this
+        · simp [outcomeOfErr_ne_done]
 
 /-- **C02 (reporting)**: a successful run under the stop strategy has reported exactly the planned
     renames — each file whose generated path differs from its own, once, to exactly that path — and
